@@ -488,6 +488,9 @@ class SymDomain(BaseDomain):
             unravel_index=np.unravel_index, ravel_multi_index=np.ravel_multi_index, mod=lambda a, b: a % b, floor_divide=lambda a, b: a // b,
             cumsum=lambda a, axis=None: SymArr(np.cumsum(np.asarray(wrap(a), dtype=object), axis=axis), wrap(a).kind),
             ndindex=np.ndindex, ndenumerate=lambda a: [(i, wrap(a)[i]) for i in np.ndindex(*wrap(a).shape)],
+            logical_not=lambda a: d.unop(d._interp, operator.invert, d._as_mask(a), None),
+            logical_and=lambda a, b: d.binop(d._interp, operator.and_, d._as_mask(a), d._as_mask(b), None),
+            logical_or=lambda a, b: d.binop(d._interp, operator.or_, d._as_mask(a), d._as_mask(b), None),
             fromiter=lambda it, dtype=None, count=-1: d.np_array(list(d._it(it))),
             asanyarray=lambda a, dtype=None: d.np_array(a, dtype=dtype, copy=False),
             ascontiguousarray=lambda a, **k: wrap(a).copy(), asfortranarray=lambda a, **k: SymArr(np.asfortranarray(np.asarray(wrap(a), dtype=object)), wrap(a).kind),
@@ -585,6 +588,22 @@ class SymDomain(BaseDomain):
                 chunk = row[j * w:(j + 1) * w]
                 out[idx + (j,)] = chunk[0] if w == 1 else (SC(*chunk) if w == 2 else SQ(*chunk))
         return out
+
+    def _as_mask(self, a):
+        """truth values of an array (numbers -> nonzero?, conditions stay conditions)"""
+        if isinstance(a, np.ndarray) and not isinstance(a, SymArr):
+            a = SymArr(np.asarray([bool(x) if isinstance(x, (bool, np.bool_, int, np.integer)) else x for x in a.reshape(-1)],
+                                  dtype=object).reshape(a.shape), "real")
+        if not isinstance(a, SymArr):
+            if isinstance(a, (bool, np.bool_)) or is_unknown(a):
+                return a
+            t = self.truth(a)
+            return t
+        out = np.empty(a.shape, dtype=object)
+        for idx in np.ndindex(*a.shape):
+            v = a[idx]
+            out[idx] = v if (isinstance(v, (bool, np.bool_)) or is_unknown(v)) else self.truth(v)
+        return SymArr(out, "real")
 
     def np_isclose(self, a, b, rtol=1e-05, atol=1e-08, **k):
         """tolerance comparison |a-b| <= atol + rtol|b|: an UNKNOWN of its own kind (rules treat it as a tolerance test, never as an
@@ -1552,6 +1571,12 @@ class SymDomain(BaseDomain):
         return cur
 
     def unop(self, interp, op, v, node):
+        if op is operator.invert and isinstance(v, SymArr) and v.size and all(
+                isinstance(x, (bool, np.bool_)) or is_unknown(x) for x in v.reshape(-1)):
+            f = np.frompyfunc(lambda x: (not x) if isinstance(x, (bool, np.bool_)) else ~x, 1, 1)
+            return SymArr(f(np.asarray(v, dtype=object)), "real")
+        if op is operator.invert and (isinstance(v, (bool, np.bool_))):
+            return not v
         if isinstance(v, SymArr):
             return with_dt(SymArr(op(np.asarray(v, dtype=object)), v.kind, v.sparse), v._dt)
         return op(v)
